@@ -153,6 +153,38 @@ Theorem C04_gen_generic_is_ambiguous : forall (tz : tzobj) (UO : Z -> bool -> Z)
 Proof. exact gen_generic_is_ambiguous_lemma. Qed.
 Print Assumptions C04_gen_generic_is_ambiguous.
 
+From V Require Import tzfile.TzGenLoopThm tzfile.TzDecodeThm.
+
+(* ---- round 4: the derivation loops of _read_tzfile, regenerated from the source ---- *)
+Theorem C04_gen_scan_std_dst : forall types idx,
+  gen_scan types idx (len idx) =
+  Ok (let sd := scan_sd types (rev idx) None None in
+      (match fst sd with None => snd sd | Some k => Some k end, snd sd)).
+Proof. exact gen_scan_lemma. Qed.
+Print Assumptions C04_gen_scan_std_dst.
+
+Theorem C04_gen_wall_transition_loop : forall types utc idx kb ks heap0, length utc = length idx ->
+  exists a b c,
+    gen_wall_loop types utc idx (len idx) (Some kb) (Some ks) heap0 =
+    Ok (a, b, c, wall_pass types (tt_off (nth_tt types ks)) utc idx (tt_off (nth_tt types kb)),
+        dst_pass types idx None 0 0 heap0).
+Proof. exact gen_wall_loop_lemma. Qed.
+Print Assumptions C04_gen_wall_transition_loop.
+
+(* the decoder of the hand model uses exactly the results of the regenerated loops *)
+Theorem C04_gen_build_uses_regenerated_loops : forall r d, build r = Ok d -> r_types r <> [] -> r_times r <> [] ->
+  length (r_idx r) = length (r_times r) ->
+  let types0 := mk_types (r_abbr r) (r_isstd r) (r_isgmt r) O (r_types r) in
+  exists ks kdo a b c ds,
+    gen_scan types0 (r_idx r) (len (r_idx r)) = Ok (Some ks, kdo) /\
+    gen_wall_loop types0 (r_times r) (r_idx r) (len (r_idx r)) (Some (gen_ttinfo_before_index types0)) (Some ks)
+                  (map (fun _ => 0) types0) = Ok (a, b, c, d_wall d, ds) /\
+    d_utc d = r_times r /\ d_idx d = r_idx r /\ d_tt d = set_dstoffs types0 ds /\
+    d_std d = Some (nth_tt (d_tt d) ks) /\ d_dst d = opt_tt (d_tt d) kdo /\
+    d_before d = Some (nth_tt (d_tt d) (gen_ttinfo_before_index types0)).
+Proof. exact build_uses_gen_lemma. Qed.
+Print Assumptions C04_gen_build_uses_regenerated_loops.
+
 (* hand-modelled fragments (struct decoding and the derivation loops of _read_tzfile, one-line methods, glue)
    are unchanged since the hand model was validated against them *)
 From V Require Import tzfile.TzPinC04.
